@@ -37,10 +37,13 @@ type topo struct {
 func init() {
 	// C17: a fan-out message whose send to one member fails (the member leaves while the sender is
 	// blocked on it) is released once by everybody who held it - the other members' copies are theirs
-	vexplore.Register("C17", func(tier string) []*vexplore.Scenario {
-		b := map[string]int{"quick": 1, "thorough": 2}[tier]
-		return []*vexplore.Scenario{{Name: "member-leaves-while-the-hub-is-sending-to-it", Mode: "sched", Bound: b, Reset: kit.ResetGlobals, Body: memberLeavesMidSend}}
-	})
+	// (C01 / C15: what the member that stays is given - the bytes that cross its connection - is what was sent)
+	for _, prop := range []string{"C17", "C01", "C15"} {
+		vexplore.Register(prop, func(tier string) []*vexplore.Scenario {
+			b := map[string]int{"quick": 1, "thorough": 2}[tier]
+			return []*vexplore.Scenario{{Name: "member-leaves-while-the-hub-is-sending-to-it", Mode: "sched", Bound: b, Reset: kit.ResetGlobals, Body: memberLeavesMidSend}}
+		})
+	}
 }
 
 func init() {
